@@ -2950,3 +2950,393 @@ func ruleIndentExactFit(c *Ctx) []Obligation {
 	}
 	return obs
 }
+
+// ---------------------------------------------------------------- NUM.DECLITERAL (hunt/h6/C15)
+
+func init() {
+	register(&Rule{Name: "NUM.DECLITERAL", Props: []string{"C15", "C10"}, Floor: 2,
+		Doc: "the decimal parser answers with a number only for a text that matches a constant pattern for decimal literals (evaluated here on witness texts): a sign first, digits on both sides of a point",
+		Run: ruleNumDecLiteral})
+}
+
+func ruleNumDecLiteral(c *Ctx) []Obligation {
+	const R = "NUM.DECLITERAL"
+	fn := c.Fn("yang.decimalValueFromString")
+	con := "decimalValueFromString: a text that is no decimal literal is refused"
+	if fn == nil {
+		return []Obligation{undecided(R, con, "-", "decimalValueFromString not found")}
+	}
+	var g *ssa.Global
+	var match *ssa.Call
+	c.eachInstrDeep(fn, func(in ssa.Instruction) {
+		call, isC := in.(*ssa.Call)
+		if !isC || g != nil {
+			return
+		}
+		cal := call.Call.StaticCallee()
+		if cal == nil || cal.Signature.Recv() == nil || cal.Name() != "MatchString" || len(call.Call.Args) < 2 {
+			return
+		}
+		if u, isU := call.Call.Args[0].(*ssa.UnOp); isU {
+			if gl, isG := u.X.(*ssa.Global); isG {
+				g, match = gl, call
+			}
+		}
+	})
+	if g == nil {
+		return []Obligation{bad(R, con, c.Pos(fn.Pos()), "the text is cut at its first point, padded and converted without its shape being looked at: `.` and `-.` are 0, `.-5` is -0.05 (the sign counted as a fraction digit)")}
+	}
+	var obs []Obligation
+	pattern := ""
+	if initFn := c.SSA[modPath+"/pkg/yang"].Func("init"); initFn != nil {
+		eachInstr(initFn, func(in ssa.Instruction) {
+			call, isC := in.(*ssa.Call)
+			if !isC || !(calleeIs(call, "regexp", "MustCompile") || calleeIs(call, "regexp", "Compile")) {
+				return
+			}
+			for _, r := range *call.Referrers() {
+				if st, isS := r.(*ssa.Store); isS && st.Addr == ssa.Value(g) {
+					if s, isK := constString(call.Call.Args[0]); isK {
+						pattern = s
+					}
+				}
+			}
+		})
+	}
+	con1 := "the pattern the decimal parser holds a text to denotes a decimal literal"
+	re, err := regexp.Compile(pattern)
+	if pattern == "" || err != nil {
+		obs = append(obs, undecided(R, con1, c.InstrPos(match), "the pattern is not a constant compiled in the package initialiser"))
+	} else {
+		must := []string{"0", "-0", "7", "+7", "-12", "0.5", "-3.14", "+2.50", "10.000000000000000001", "9223372036854775807"}
+		mustNot := []string{"", ".", "-.", "+.", ".+", ".-", ".5", "-.5", "5.", ".-5", ".-05", "1.-5", "0...5", "1.2.3", "--1", "+-1", "1e3", " 1", "1 ", "0x10", "1_0", "-", "+"}
+		var wrong []string
+		for _, s := range must {
+			if !re.MatchString(s) {
+				wrong = append(wrong, fmt.Sprintf("rejects %q", s))
+			}
+		}
+		for _, s := range mustNot {
+			if re.MatchString(s) {
+				wrong = append(wrong, fmt.Sprintf("accepts %q", s))
+			}
+		}
+		if len(wrong) == 0 {
+			obs = append(obs, ok(R, con1, c.InstrPos(match), fmt.Sprintf("constant %q evaluated on %d witness texts", pattern, len(must)+len(mustNot))))
+		} else {
+			if len(wrong) > 5 {
+				wrong = append(wrong[:5], fmt.Sprintf("… (%d in all)", len(wrong)))
+			}
+			obs = append(obs, bad(R, con1, c.InstrPos(match), fmt.Sprintf("constant %q %s", pattern, joinStrings(wrong, ", "))))
+		}
+	}
+	// a mismatch returns an error, and every return that answers with a number (a nil error) lies on the side of a
+	// branch where the match held. The match may be made in a private predicate that returns it (or its negation).
+	var mv ssa.Value = match
+	held := true // the truth value of mv that means "the text matched"
+	if h := match.Parent(); h != fn {
+		mv = nil
+		direct := true
+		for _, b := range h.Blocks {
+			r, isR := b.Instrs[len(b.Instrs)-1].(*ssa.Return)
+			if !isR {
+				continue
+			}
+			if len(r.Results) != 1 {
+				direct = false
+				continue
+			}
+			base, br := stripNot(resolveSpill(r.Results[0], r), true)
+			if base != ssa.Value(match) {
+				direct = false
+			}
+			held = br
+		}
+		if calls := c.callsTo(fn, h); direct && len(calls) == 1 {
+			if v, isV := calls[0].(ssa.Value); isV {
+				mv = v
+			}
+		}
+		if mv == nil {
+			obs = append(obs, undecided(R, con, c.InstrPos(match), "the match is made in "+h.Name()+", which does not simply return it to "+fn.Name()))
+			return obs
+		}
+	}
+	refused := false
+	for _, b := range fn.Blocks {
+		ifi, isIf := b.Instrs[len(b.Instrs)-1].(*ssa.If)
+		if !isIf {
+			continue
+		}
+		base, br := stripNot(ifi.Cond, true)
+		if base != mv {
+			continue
+		}
+		// successor 0 is taken when the condition is true: base == br
+		miss := b.Succs[1]
+		if br != held {
+			miss = b.Succs[0]
+		}
+		if blockReturnsError(miss) {
+			refused = true
+		}
+	}
+	bypass := ""
+	for _, rt := range successReturns(fn) {
+		under := false
+		for _, g := range guardsAt(rt.Block()) {
+			if base, br := stripNot(g.Cond, g.Branch); base == mv && br == held {
+				under = true
+			}
+		}
+		if !under {
+			bypass = c.InstrPos(rt)
+		}
+	}
+	switch {
+	case !refused:
+		obs = append(obs, bad(R, con, c.InstrPos(match), "a text that does not match is not turned away with an error on the spot"))
+	case bypass != "":
+		obs = append(obs, bad(R, con, c.InstrPos(match), "the return at "+bypass+" answers with a number on a path where the text need not have matched"))
+	default:
+		obs = append(obs, ok(R, con, c.InstrPos(match), "a mismatch returns an error, and every return with a number lies where the match held"))
+	}
+	return obs
+}
+
+// ---------------------------------------------------------------- AUG.NSOWNER (hunt/h6/C07/finding1; recorded finding)
+
+func init() {
+	register(&Rule{Name: "AUG.NSOWNER", Props: []string{"C07", "C08"}, Floor: 1,
+		Doc: "the namespace an augment stamps on the nodes it grafts is that of a loaded module: Entry.Namespace answers with an empty value when the module a submodule belongs to is not in the set, so a graft whose namespace comes from it is reached only past a test of that lookup (recorded finding: it is not, and the pinned TestUsesParent loads such a submodule)",
+		Run: ruleAugNSOwner})
+}
+
+func ruleAugNSOwner(c *Ctx) []Obligation {
+	const R = "AUG.NSOWNER"
+	con := "yang.(*Entry).Augment: graft namespace is a loaded module's"
+	aug := c.Fn("yang.(*Entry).Augment")
+	nsFn := c.Fn("yang.(*Entry).Namespace")
+	mods := c.Named("yang", "Modules")
+	if aug == nil || nsFn == nil || mods == nil {
+		return []Obligation{undecided(R, con, "-", "Augment / Namespace / Modules not found")}
+	}
+	fMods := FieldVar(mods, "Modules")
+	// can Namespace answer with a value it made itself?
+	fresh := false
+	for _, b := range nsFn.Blocks {
+		r, isR := b.Instrs[len(b.Instrs)-1].(*ssa.Return)
+		if !isR || len(r.Results) != 1 {
+			continue
+		}
+		operandClosure(resolveSpill(r.Results[0], r), func(x ssa.Value) {
+			if a, isA := x.(*ssa.Alloc); isA && a.Heap {
+				fresh = true
+			}
+		})
+	}
+	if !fresh {
+		return []Obligation{ok(R, con, c.Pos(nsFn.Pos()), "Namespace never answers with a value of its own making")}
+	}
+	// functions that look a module up by name in the set
+	looksUp := func(fn *ssa.Function) bool {
+		found := false
+		for _, f := range c.staticReach(fn, 3) {
+			if f.Blocks == nil || !c.isRepoFn(f) {
+				continue
+			}
+			eachInstr(f, func(in ssa.Instruction) {
+				if l, isL := in.(*ssa.Lookup); isL {
+					if _, lf, _ := loadedField(l.X); lf == fMods && fMods != nil {
+						found = true
+					}
+				}
+			})
+		}
+		return found
+	}
+	var obs []Obligation
+	n := 0
+	fns := append([]*ssa.Function{aug}, c.helpersUnder(aug)...)
+	for _, fn := range fns {
+		for _, ci := range callsIn(fn, func(ci ssa.CallInstruction) bool { return true }) {
+			fromNS := false
+			for _, a := range ci.Common().Args {
+				operandClosure(a, func(x ssa.Value) {
+					if call, isC := x.(*ssa.Call); isC && call.Call.StaticCallee() == nsFn {
+						fromNS = true
+					}
+				})
+			}
+			if !fromNS || ci.Common().StaticCallee() == nsFn {
+				continue
+			}
+			n++
+			tested := false
+			var conds []ssa.Value
+			for _, g := range guardsAtDeep(ci.Block()) {
+				conds = append(conds, g.Cond)
+			}
+			// a test one of whose outcomes does not come to the graft in this iteration (the last test of a
+			// conjunction whose body leaves the iteration does not dominate the graft: the tests before it go round it)
+			avoid := iterationAvoid(ci.Block())
+			for _, b := range fn.Blocks {
+				iff, isIf := b.Instrs[len(b.Instrs)-1].(*ssa.If)
+				if !isIf || b == ci.Block() || avoid[b] {
+					continue
+				}
+				r0, r1 := blockReaches(b.Succs[0], ci.Block(), avoid), blockReaches(b.Succs[1], ci.Block(), avoid)
+				if r0 != r1 {
+					conds = append(conds, iff.Cond)
+				}
+			}
+			for _, cond := range conds {
+				operandClosureDeep(cond, func(x ssa.Value) {
+					if l, isL := x.(*ssa.Lookup); isL {
+						if _, lf, _ := loadedField(l.X); lf == fMods && fMods != nil {
+							tested = true
+						}
+					}
+					if call, isC := x.(*ssa.Call); isC {
+						if cal := call.Call.StaticCallee(); cal != nil && cal != nsFn && c.isRepoFn(cal) && looksUp(cal) && isPointerResultTo(cal, c.Named("yang", "Module")) {
+							tested = true
+						}
+					}
+				})
+			}
+			if tested {
+				obs = append(obs, ok(R, con, c.InstrPos(ci), "the graft is reached past a test of the module lookup"))
+			} else {
+				obs = append(obs, bad(R, con, c.InstrPos(ci), "`submodule so { belongs-to nowhere { prefix n; } import b { prefix b; } augment \"/b:bt\" { container grafted; } }` with module nowhere not loaded: Process reports nothing, /b:bt gains grafted, and its namespace is the empty value Namespace makes on the miss"))
+			}
+		}
+	}
+	if n == 0 {
+		return []Obligation{undecided(R, con, c.Pos(aug.Pos()), "no graft in Augment takes its namespace from Entry.Namespace")}
+	}
+	return obs
+}
+
+// isPointerResultTo: the function has one result and it is a pointer to the named type.
+func isPointerResultTo(fn *ssa.Function, nt *types.Named) bool {
+	res := fn.Signature.Results()
+	if res.Len() != 1 || nt == nil {
+		return false
+	}
+	p, isP := res.At(0).Type().Underlying().(*types.Pointer)
+	if !isP {
+		return false
+	}
+	n, isN := p.Elem().(*types.Named)
+	return isN && n.Obj() == nt.Obj()
+}
+
+// ---------------------------------------------------------------- AUG.ABSPATH (hunt/h6/C07/finding2; recorded finding)
+
+func init() {
+	register(&Rule{Name: "AUG.ABSPATH", Props: []string{"C07"}, Floor: 1,
+		Doc: "the argument of a module-level augment is an absolute schema node identifier (RFC 7950 7.17): Augment looks the argument up only past a test that it begins with `/` — as ApplyDeviate does for a deviation (recorded finding: it does not, `augment \"../x\"` is grafted, and the pinned TestGetWhenXPath writes such an augment)",
+		Run: ruleAugAbsPath})
+}
+
+// slashTests: the values in fn (and its private helpers) that test whether a text begins with `/`, with the text.
+func (c *Ctx) slashTests(fn *ssa.Function) map[ssa.Value]ssa.Value {
+	out := map[ssa.Value]ssa.Value{}
+	c.eachInstrDeep(fn, func(in ssa.Instruction) {
+		switch x := in.(type) {
+		case *ssa.Call:
+			if calleeIs(x, "strings", "HasPrefix") && len(x.Call.Args) == 2 {
+				if s, isK := constString(x.Call.Args[1]); isK && s == "/" {
+					out[x] = x.Call.Args[0]
+				}
+			}
+		case *ssa.BinOp:
+			if x.Op != token.EQL && x.Op != token.NEQ {
+				return
+			}
+			if k, isK := constInt(x.Y); !isK || k != '/' {
+				return
+			}
+			switch y := x.X.(type) {
+			case *ssa.Lookup:
+				if idx, isI := constInt(y.Index); isI && idx == 0 {
+					out[x] = y.X
+				}
+			case *ssa.Index:
+				if idx, isI := constInt(y.Index); isI && idx == 0 {
+					out[x] = y.X
+				}
+			}
+		}
+	})
+	return out
+}
+
+func ruleAugAbsPath(c *Ctx) []Obligation {
+	const R = "AUG.ABSPATH"
+	con := "yang.(*Entry).Augment: the target path is looked up only when it is absolute"
+	aug := c.Fn("yang.(*Entry).Augment")
+	fsn := c.Fn("yang.(*Entry).findSchemaNode")
+	if aug == nil || fsn == nil {
+		return []Obligation{undecided(R, con, "-", "Augment / findSchemaNode not found")}
+	}
+	calls := c.callsToDeep(aug, fsn)
+	if len(calls) == 0 {
+		return []Obligation{undecided(R, con, c.Pos(aug.Pos()), "Augment does not look its target up with findSchemaNode")}
+	}
+	var obs []Obligation
+	for _, ci := range calls {
+		args := ci.Common().Args
+		path := args[len(args)-1]
+		tests := c.slashTests(ci.Parent())
+		var conds []ssa.Value
+		for _, g := range guardsAtDeep(ci.Block()) {
+			conds = append(conds, g.Cond)
+		}
+		// … or a test one of whose outcomes does not come to a use of the looked-up entry in this iteration
+		avoid := iterationAvoid(ci.Block())
+		var uses []*ssa.BasicBlock
+		if v, isV := ci.(ssa.Value); isV {
+			for _, in := range forwardUses(v, 4) {
+				if call, isC := in.(ssa.CallInstruction); isC && in != ci.(ssa.Instruction) && call.Common().StaticCallee() != nil && c.isRepoFn(call.Common().StaticCallee()) {
+					uses = append(uses, in.Block())
+				}
+			}
+		}
+		for _, b := range ci.Parent().Blocks {
+			iff, isIf := b.Instrs[len(b.Instrs)-1].(*ssa.If)
+			if !isIf || avoid[b] || len(uses) == 0 {
+				continue
+			}
+			cut := false
+			for _, s := range b.Succs {
+				reach := false
+				for _, u := range uses {
+					if blockReaches(s, u, avoid) {
+						reach = true
+					}
+				}
+				if !reach {
+					cut = true
+				}
+			}
+			if cut {
+				conds = append(conds, iff.Cond)
+			}
+		}
+		tested := false
+		for _, cond := range conds {
+			operandClosureDeep(cond, func(x ssa.Value) {
+				if text, isT := tests[x]; isT && (sameExpr(text, path) || sameObject(text, path)) {
+					tested = true
+				}
+			})
+		}
+		if tested {
+			obs = append(obs, ok(R, con, c.InstrPos(ci), "the lookup, or every use of what it finds, lies past a test that the path begins with `/`"))
+		} else {
+			obs = append(obs, bad(R, con, c.InstrPos(ci), "`module d { … container x; augment \"../x\" { leaf rel { type string; } } }`: Process reports nothing and /d:x gains rel — the path starts at the augment's own entry, whose parent is the module, and `..` climbs to it"))
+		}
+	}
+	return obs
+}
